@@ -2,6 +2,10 @@
 From DnsV Require Import Model.Text Model.Preproc.
 Open Scope N_scope.
 
+(* compact notation for the byte strings of generated cases: len bytes of n, little endian *)
+Fixpoint bN (len : nat) (n : N) : bytes :=
+  match len with O => [] | S k => n mod 256 :: bN k (n / 256) end.
+
 (* one DecodeLn -> MarshalMap + MarshalText step as observed.
    serr: 0 ok, 1 DecodeLn error, 2 MarshalMap error, 3 MarshalText error, 4 panic, 5 not run *)
 Record step := mkS { serr : N; stext : bytes; skv : list kv }.
@@ -87,17 +91,27 @@ Fixpoint all_some {A} (l : list (option A)) : option (list A) :=
   | Some x :: t => match all_some t with Some r => Some (x :: r) | None => None end
   end.
 
+(* the library premises of the theorems (Hip_rt, Hip_nil, Hip_nosep; ToLower never yields '.'),
+   re-checked on every value the harness observed *)
+Definition lib_ok (tb : tables) : bool :=
+  forallb (fun e => match lookup_b (t_ipp tb) (snd e) with Some a => bytes_eqb a (fst e) | None => false end &&
+                    negb (contains 44 (snd e))) (t_ips tb) &&
+  match lookup_b (t_ipp tb) [] with None => true | Some _ => false end &&
+  forallb (fun e => negb (snd (snd e) =? 46)) (t_runes tb).
+
 (* correspondence: the model computes what the implementation did *)
 Definition model_ok (c : case) : bool :=
   match c with
   | CLine t v2 serial wf line s1 s2 s3 tb =>
     let o := oracles_of tb in
+    lib_ok tb &&
     step_matches o v2 serial line s1 &&
     (if serr s1 =? 0 then step_matches o v2 serial (stext s1) s2 else true) &&
     (* lines of the well-formed generator satisfy the guard of the theorems *)
     (if wf && modelled t then wf_lineb o serial line else true)
   | CFile v2 serial pserial wf file pre_err pre orig_err orig p_err pdump acc tb =>
     let o := oracles_of tb in
+    lib_ok tb &&
     match all_some (map rp_of_kv acc) with
     | None => false
     | Some rps =>
